@@ -772,6 +772,11 @@ func (s *State) applyFunction(name string, fn object.Object, args []object.Objec
 		log.Debugf("Cache miss for %s %v, not caching error result", function.CacheKey, args)
 		return res
 	}
+	// Nor functions: a returned closure comes with its own new environment, each call must make another one.
+	if res.Type() == object.FUNC {
+		log.Debugf("Cache miss for %s %v, not caching function result", function.CacheKey, args)
+		return res
+	}
 	s.cache.Set(function.CacheKey, args, res, output)
 	log.Debugf("Cache miss for %s %v", function.CacheKey, args)
 	return res
